@@ -39,6 +39,10 @@ def scratch(prefix="verif"):
 def build_harness(race=False):
     """Rebuild the harness against the current working tree of REPO."""
     os.makedirs(BUILD, exist_ok=True)
+    if os.environ.get("VERIF_VH") and not race:
+        # a pre-built (e.g. coverage-instrumented) harness binary, for measuring what the drivers reach
+        shutil.copy(os.environ["VERIF_VH"], os.path.join(BUILD, "vh"))
+        return os.path.join(BUILD, "vh")
     modfile = os.path.join(BUILD, "go.mod")
     src = open(os.path.join(HARNESS, "go.mod")).read().replace("=> /repo", "=> " + REPO)
     open(modfile, "w").write(src)
